@@ -1372,15 +1372,19 @@ class BinaryOperator(SymbolicExpression, ABC):
             if isinstance(cache, IndexedCache):
                 cache.clear()
 
-    def yield_final_output_from_cache(self, variables_sources, cache: Optional[IndexedCache] = None) \
-            -> Iterable[Dict[int, HashedValue]]:
+    def yield_final_output_from_cache(self, variables_sources, cache: Optional[IndexedCache] = None,
+                                      suppress_true_duplicates: bool = False) -> Iterable[Dict[int, HashedValue]]:
+        """
+        :param suppress_true_duplicates: Whether the operator suppresses duplicates of true rows when it evaluates, then
+         it has to do the same when it replays them from the cache, otherwise a re-evaluation yields more rows.
+        """
         cache = self._cache_ if cache is None else cache
         entered = False
         for output, is_false in cache.retrieve(variables_sources):
             entered = True
             self._is_false_ = is_false
             cache_match_count.values[self._node_.name] += 1
-            if is_false and self._is_duplicate_output_(output):
+            if (is_false or suppress_true_duplicates) and self._is_duplicate_output_(output):
                 continue
             yield output
         if not entered:
@@ -1853,7 +1857,8 @@ class ElseIf(OR):
                 left_value.update(sources)
                 if self.left._is_false_:
                     if self._caching_enabled_() and self.right_cache.check(left_value):
-                        yield from self.yield_final_output_from_cache(left_value, self.right_cache)
+                        yield from self.yield_final_output_from_cache(left_value, self.right_cache,
+                                                                      suppress_true_duplicates=True)
                         continue
                     right_prev = self.right._eval_parent_
                     self.right._eval_parent_ = self
